@@ -6,8 +6,7 @@
 package tlspeer
 
 import (
-	"crypto/ecdsa"
-	"crypto/elliptic"
+	"crypto/ed25519"
 	"crypto/rand"
 	"crypto/tls"
 	"crypto/x509"
@@ -28,7 +27,9 @@ var (
 
 func setup() {
 	once.Do(func() {
-		key, err := ecdsa.GenerateKey(elliptic.P256(), rand.Reader)
+		// Ed25519: fixed-length signatures, so that the byte layout of the
+		// handshake is the same in every run (fault offsets stay comparable)
+		pub, key, err := ed25519.GenerateKey(rand.Reader)
 		if err != nil {
 			panic(err)
 		}
@@ -38,8 +39,9 @@ func setup() {
 			KeyUsage: x509.KeyUsageDigitalSignature | x509.KeyUsageCertSign, ExtKeyUsage: []x509.ExtKeyUsage{x509.ExtKeyUsageServerAuth, x509.ExtKeyUsageClientAuth},
 			BasicConstraintsValid: true, IsCA: true,
 			DNSNames: []string{"example.com", "example.org", "other.example"},
+			SubjectKeyId: []byte{1, 2, 3, 4},
 		}
-		der, err := x509.CreateCertificate(rand.Reader, tmpl, tmpl, &key.PublicKey, key)
+		der, err := x509.CreateCertificate(rand.Reader, tmpl, tmpl, pub, key)
 		if err != nil {
 			panic(err)
 		}
